@@ -72,11 +72,16 @@ def _scenario_index_save_hardlink(root):
     return {}
 
 
-def _closed_request(src_root):
+def _closed_request(src_root, named=False):
     from . import env
     from .oracle import list_store
 
     objs, _t, _s = list_store(src_root)
+    if named:
+        # ids as dvc's collection of used objects hands them over: carrying the name of the path they came from
+        from dvc_data.hashfile.hash_info import HashInfo
+
+        return {HashInfo("md5", o, obj_name=f"data/{o[:6]}") for o in objs}
     return {env.HI("md5", o) for o in objs}
 
 
@@ -104,7 +109,7 @@ def _scenario_store_to_store_index(root):
     src = env.local_odb(os.path.join(root, "src"))
     dest = env.local_odb(os.path.join(root, "dest"), state=state)
     index = ObjectDBIndex(os.path.join(root, "tmp"), "dest")
-    res = transfer(src, dest, _closed_request(src.path), jobs=1, dest_index=index, cache_odb=src)
+    res = transfer(src, dest, _closed_request(src.path, named=True), jobs=1, dest_index=index, cache_odb=src)
     index.close()
     state.close()
     return {"failed": len(res.failed)}
@@ -167,7 +172,7 @@ def _scenario_push_remote(root):
     src = env.local_odb(os.path.join(root, "src"))
     dest = env.remote_odb(os.path.join(root, "dest"), fs=FaultyFS(jobs=1))
     index = ObjectDBIndex(os.path.join(root, "tmp"), "dest")
-    res = transfer(src, dest, _closed_request(src.path), jobs=1, dest_index=index, cache_odb=src)
+    res = transfer(src, dest, _closed_request(src.path, named=True), jobs=1, dest_index=index, cache_odb=src)
     index.close()
     return {"failed": len(res.failed)}
 
